@@ -73,7 +73,7 @@ pub const SPECS: &[PropSpec] = &[PropSpec {
     quick_runs: 16_000,
     thorough_runs: 400_000,
     default_seed: 101,
-    rule: "runs are generated from C01's space (2-4 peers, 1-2 local players each, delays 0-6, windows 1-12, sparse on/off, both predictors, five input modes, tick jitter/pauses/rate ratios, per-packet loss <= 25 %, duplication <= 10 %, latency 0-150 ms with jitter, burst outages short of the timeout, 50-5000 frames, 0-2 spectators); a run is non-trivial if it had >= 1 rollback, >= 1 network fault that actually fired and >= 50 frames sealed against the serial replay; distinct = distinct 64-bit hash of the executed schedule",
+    rule: "runs are generated from C01's space (2-4 peers, 1-2 local players each, delays 0-6, windows 1-12, sparse on/off, both predictors, five input modes, tick jitter/pauses/rate ratios, per-packet loss <= 25 %, duplication <= 10 %, latency 0-150 ms with jitter, burst outages short of the timeout, 50-5000 frames, 0-2 spectators); a run is non-trivial if it had >= 1 rollback, >= 1 network fault that actually fired and >= 50 frames sealed against the serial replay; distinct = distinct 64-bit hash of the executed schedule; swarm switches of every generic plan: desync detection on in a quarter of the runs, a game that keeps its own snapshots (None data in the cells) in a fifth, local inputs submitted in seeded order with throw-away submissions first in 30 %",
     nontrivial: nt_c01,
     required_probes: &["rollbacks", "rollbacks_at_full_window", "stalls_at_prediction_limit", "lists_with_two_loads", "drop_random", "duplicate_random", "reordered_deliveries", "drop_window", "sealed_frames", "input_ring_wraps"],
     assumptions: BASE_ASSUME,
@@ -109,7 +109,7 @@ PropSpec {
     quick_runs: 14_000,
     thorough_runs: 350_000,
     default_seed: 404,
-    rule: "windows 0..=12 x delays x sparse x starvation (one peer paused or black-holed one/both ways for 1-50 s, timeouts raised to 120 s); non-trivial = >= 10 stalled calls (prediction limit or lockstep) and >= 30 frames simulated; distinct = distinct executed-schedule hash",
+    rule: "windows 0..=12 x delays x sparse x starvation (one peer paused or black-holed one/both ways for 1-50 s, timeouts raised to 120 s); non-trivial = >= 10 stalled calls (prediction limit or lockstep) and >= 30 frames simulated; distinct = distinct executed-schedule hash; desync detection on in a quarter of the runs (lockstep must not save for checksum reports either)",
     nontrivial: nt_c04,
     required_probes: &["stalls_at_prediction_limit", "stalls_lockstep", "rollbacks_at_full_window", "drop_window"],
     assumptions: BASE_ASSUME,
@@ -145,7 +145,7 @@ PropSpec {
     quick_runs: 100_000,
     thorough_runs: 2_500_000,
     default_seed: 707,
-    rule: "two peers with 1-2 players each, optional spectator on the survivor, windows 0..=12, delays, sparse on/off, timeouts 300-3000 ms, notify 100-800 ms, survivor tick period 4-40 ms, per-packet loss/duplication; the victim stops at a seeded instant (handshake included), some of its last packets are lost, the survivor may be paused around the death; in 30 % of the runs disconnect_player is called instead. Oracles: poll-by-poll comparison of NetworkInterrupted/NetworkResumed/Disconnected with a two-timer reference model on exact virtual timestamps, C01's timeline check with the accessor's (disconnected, last_frame), the spectator-stream check, liveness of the survivor after the disconnect. Non-trivial = a Disconnected event or API disconnect happened with >= 20 frames simulated; distinct = distinct executed-schedule hash",
+    rule: "two peers with 1-2 players each, optional spectator on the survivor, windows 0..=12, delays, sparse on/off, timeouts 300-3000 ms, notify 100-800 ms, survivor tick period 4-40 ms, per-packet loss/duplication; the victim stops at a seeded instant (handshake included), some of its last packets are lost, the survivor may be paused around the death; in 30 % of the runs disconnect_player is called instead. Oracles: poll-by-poll comparison of NetworkInterrupted/NetworkResumed/Disconnected with a two-timer reference model on exact virtual timestamps, C01's timeline check with the accessor's (disconnected, last_frame), the spectator-stream check, liveness of the survivor after the disconnect. Non-trivial = a Disconnected event or API disconnect happened with >= 20 frames simulated; distinct = distinct executed-schedule hash; in 40 % of the death runs the dead peer's program is relaunched on the same address 50-900 ms later (a new magic, a handshake request every 200 ms): foreign traffic from a known address must not keep the old connection alive",
     nontrivial: nt_c07,
     required_probes: &["disconnected", "network_interrupted", "api_calls", "spectator_frames", "rollbacks", "stalls_lockstep"],
     assumptions: BASE_ASSUME,
@@ -157,7 +157,7 @@ PropSpec {
     quick_runs: 0,
     thorough_runs: 0,
     default_seed: 808,
-    rule: "the fault is a forged or corrupted packet. (b) enumerated: every byte string of length <= 2 (quick; <= 3 thorough, 16 843 009 strings) and seeded chunks of the 3-byte space as Input payload against three references, plus 1 M (quick) / 10 M (thorough) structure-aware mutations of real payloads (bit flips, truncation, insertion, spliced long varints), each decoded by the real codec under a panic trap and a counting allocator (payloads whose container declares > 512 MiB go to a child process). (a) live: 10-60 injections per run into runs of C01's space and into two-peer runs with a death, at seeded instants from the first handshake packet on: real Input packets replayed with a wrong number of statuses, a negative start frame, random / enumerated / bit-flipped / truncated / wrong-size payloads; any message kind with a wrong magic after the handshake; any message kind and raw garbage from unknown addresses. Oracles: no panic, no allocation > 16 MiB, C01's timeline check, twin run without the injections: identical sealed timelines, identical Synchronized/Disconnected/DesyncDetected events, same progress. Non-trivial = a sweep chunk, or a live run in which >= 5 forged datagrams were delivered; distinct = distinct executed-schedule hash",
+    rule: "the fault is a forged or corrupted packet. (b) enumerated: every byte string of length <= 2 (quick; <= 3 thorough, 16 843 009 strings) and seeded chunks of the 3-byte space as Input payload against three references, plus 1 M (quick) / 10 M (thorough) structure-aware mutations of real payloads (bit flips, truncation, insertion, spliced long varints), each decoded by the real codec under a panic trap and a counting allocator (payloads whose container declares > 512 MiB go to a child process). (a) live: 10-60 injections per run into runs of C01's space and into two-peer runs with a death, at seeded instants from the first handshake packet on: real Input packets replayed with a wrong number of statuses, a negative start frame, random / enumerated / bit-flipped / truncated / wrong-size payloads; any message kind with a wrong magic after the handshake; any message kind and raw garbage from unknown addresses. Oracles: no panic, no allocation > 16 MiB, C01's timeline check, twin run without the injections: identical sealed timelines, identical Synchronized/Disconnected/DesyncDetected events, same progress. Non-trivial = a sweep chunk, or a live run in which >= 5 forged datagrams were delivered; distinct = distinct executed-schedule hash; malformed packets may piggyback an acknowledgement ahead of the genuine one and a 'disconnected' status (dropped means dropped as a whole), negative start frames come with enough extra frames to cross frame 0 (incl. i32::MIN), forgeries are also built for links on which nothing was sent yet, and a well-formed input packet may come from a spectator's address",
     nontrivial: nt_c08,
     required_probes: &["payloads_decoded", "injected_datagrams", "twin_runs", "undecodable_datagrams", "forged_from_known_address", "forged_from_unknown_address"],
     assumptions: &["a forged packet with the right address, the right magic and a well-formed envelope may refresh keep-alive timers; equality with the twin is demanded on inputs, states and connection events, not on timer-driven retransmission instants", "wrong-magic packets are injected only after the handshake with that address completed (before that the endpoint cannot know the right magic)"],
@@ -181,7 +181,7 @@ PropSpec {
     quick_runs: 40_000,
     thorough_runs: 1_000_000,
     default_seed: 1010,
-    rule: "3-4 peers with 1-2 players each, rollback mode (windows 1-12), delays, sparse on/off; one peer stops at a seeded instant; independently for every survivor the dying peer's packets are dropped from 0-150 ms before its death (so survivors hold different last frames for it and time it out at different instants); links between survivors have latency and jitter, in 40 % of the runs also one loss burst of 50-700 ms (far below any timeout) around the death, and in 30 % one survivor has its own, different disconnect timeout. Oracles: no panic; once every survivor has disconnected the victim, all survivors' final inputs and statuses for the victim's players and their states agree on every frame sealed at all of them; survivors keep advancing. Non-trivial = packets of the dying peer were dropped for at least one survivor and >= 60 frames were simulated; distinct = distinct executed-schedule hash",
+    rule: "3-4 peers with 1-2 players each, rollback mode (windows 1-12), delays, sparse on/off; one peer stops at a seeded instant; independently for every survivor the dying peer's packets are dropped from 0-150 ms before its death (so survivors hold different last frames for it and time it out at different instants); links between survivors have latency and jitter, in 40 % of the runs also one loss burst of 50-700 ms (far below any timeout) around the death, and in 30 % one survivor has its own, different disconnect timeout. Oracles: no panic; once every survivor has disconnected the victim, all survivors' final inputs and statuses for the victim's players and their states agree on every frame sealed at all of them; survivors keep advancing. Non-trivial = packets of the dying peer were dropped for at least one survivor and >= 60 frames were simulated; distinct = distinct executed-schedule hash; half of the runs cut every link of the dying peer at the same instant (all survivors hold the same amount: no split, the recorded finding cannot apply); in 30 % of the runs the dying peer's last packets towards one survivor are not lost but held up for timeout + 0.1..2.5 s (stragglers that arrive after the cut-off); 'received different amounts' is measured when each survivor cuts the player off",
     nontrivial: nt_c10,
     required_probes: &["c10_runs_compared", "disconnected", "drop_window"],
     assumptions: BASE_ASSUME,
@@ -205,7 +205,7 @@ PropSpec {
     quick_runs: 120_000,
     thorough_runs: 3_000_000,
     default_seed: 1212,
-    rule: "60 % handshake stress (2-3 peers, 0-2 spectators, loss up to 40 %, duplication up to 20 %, latency 0-300 ms with 100 % jitter, poll cadences 1-400 ms, never-drained sessions, stray SyncReplies with never-sent nonces from the right address and from strangers), 30 % silences around the notify delay and the timeout (+-200 ms) on a two-peer link, 10 % quiet pairs (two sessions that merely poll for 60 simulated seconds). Oracles: per-address event grammar automaton, handshake accounting (a reply matches iff its nonce was sent to that address and not matched before; Running iff every address has 5 matches; NotSynchronized iff not Running), poll-by-poll timer model, event queue <= 100. Non-trivial = >= 1 handshake completed and >= 1 fault or silence fired; distinct = distinct executed-schedule hash",
+    rule: "60 % handshake stress (2-3 peers, 0-2 spectators, loss up to 40 %, duplication up to 20 %, latency 0-300 ms with 100 % jitter, poll cadences 1-400 ms, never-drained sessions, stray SyncReplies with never-sent nonces from the right address and from strangers), 30 % silences around the notify delay and the timeout (+-200 ms) on a two-peer link, 10 % quiet pairs (two sessions that merely poll for 60 simulated seconds). Oracles: per-address event grammar automaton, handshake accounting (a reply matches iff its nonce was sent to that address and not matched before; Running iff every address has 5 matches; NotSynchronized iff not Running), poll-by-poll timer model, event queue <= 100. Non-trivial = >= 1 handshake completed and >= 1 fault or silence fired; distinct = distinct executed-schedule hash; one run in ten: a spectator that stops polling or whose packets are all lost is cut loose at the 128-input cap (60 s timeout) while a lossy, jittery link to the other player makes several frames confirm within one call",
     nontrivial: nt_c12,
     required_probes: &["synchronized", "network_interrupted", "network_resumed", "disconnected", "drop_random", "duplicate_random", "injected_datagrams", "calls_not_synchronized"],
     assumptions: BASE_ASSUME,
@@ -217,7 +217,7 @@ PropSpec {
     quick_runs: 400_000,
     thorough_runs: 10_000_000,
     default_seed: 1313,
-    rule: "degenerate simulation (one SyncTestSession, no network/clock): players 1-4, window 1-12, check distance 0..window-1 (valid) or >= window / sparse (must be rejected), delay 0-6, 30-400 frames; half of the valid runs inject a nondeterministic game step at a seeded frame (check distance >= 2; either every simulation of the frame differs, or only its k-th re-simulation does) and must be reported within check_distance+2 frames naming the first affected frame; the others must never report; non-trivial = valid configuration that simulated >= 20 frames; distinct = distinct (request trace, seed) hash",
+    rule: "degenerate simulation (one SyncTestSession, no network/clock): players 1-4, window 1-12, check distance 0..window-1 (valid) or >= window / sparse (must be rejected), delay 0-6, 30-400 frames; half of the valid runs inject a nondeterministic game step at a seeded frame (check distance >= 2; either every simulation of the frame differs, or only its k-th re-simulation does) and must be reported within check_distance+2 frames naming the first affected frame; the others must never report; non-trivial = valid configuration that simulated >= 20 frames; distinct = distinct (request trace, seed) hash; in 30 % of the runs the game keeps its own snapshots and saves None data with a checksum",
     nontrivial: nt_c13,
     required_probes: &["synctest_runs_with_detection", "synctest_invalid_configs_tried", "rollbacks"],
     assumptions: &["the injected fault is a game step whose result differs between simulations of the same frame (fresh counter mixed into the state)", "no network, no clock: the technique degenerates to seeded workload + fault + oracle + replay"],
@@ -253,7 +253,7 @@ PropSpec {
     quick_runs: 6000,
     thorough_runs: 150_000,
     default_seed: 1717,
-    rule: "C01's space (3-4 peers in half of the plain runs, a third with desync detection on, rollback and lockstep, spectators), plus a fifth of the runs with run-time delay changes (C11's plans) and a fifth with a really diverging game and desync detection (C09's plans); every plan is executed three times in one process with the same API calls, clock readings and per-link packet fates but different hash keys (single key vs a fresh key per map) and different handshake random numbers; request lists, final frames, per-address event sequences with their timestamps and the executed traffic schedule must be identical. Non-trivial = >= 1 rollback and >= 3 nodes or >= 3 players; distinct = distinct executed-schedule hash",
+    rule: "C01's space (3-4 peers in half of the plain runs, a third with desync detection on, rollback and lockstep, spectators), plus a fifth of the runs with run-time delay changes (C11's plans) and a fifth with a really diverging game and desync detection (C09's plans); every plan is executed three times in one process with the same API calls, clock readings and per-link packet fates but different hash keys (single key vs a fresh key per map) and different handshake random numbers; request lists, final frames, per-address event sequences with their timestamps and the executed traffic schedule must be identical. Non-trivial = >= 1 rollback and >= 3 nodes or >= 3 players; distinct = distinct executed-schedule hash; two sevenths of the runs are C07's and C06's plans (a player dies or is disconnected while the host serves a spectator)",
     nontrivial: nt_c17,
     required_probes: &["twin_runs", "rollbacks", "spectator_frames"],
     assumptions: BASE_ASSUME,
